@@ -338,6 +338,11 @@ var c11Ctors = []string{
 	"(select 'list (lambda (e) true) S)", "(reject 'vector (lambda (e) false) S)",
 	"(insert-index 'vector S 0 7)", "(insert-index 'list S 0 7)", "(insert-sorted 'list S < 7)",
 	"(zip 'list S S)", "(append 'vector (append 'vector S))", "(concat 'vector (slice 'vector S 0 (length S)))",
+	// a &rest parameter is a value of the callee's own: handing a list over with apply / unpack / funcall
+	// does not make the caller's list the callee's to sort
+	"(apply (lambda (&rest r) r) S)", "(unpack (lambda (&rest r) r) S)", "(apply (lambda (a &rest r) r) e0 S)",
+	"(apply (lambda (&rest r) (stable-sort > r)) S)", "(apply list S)", "(apply vector S)",
+	"(apply (lambda (&rest r) r) (slice 'list S 0 (length S)))",
 }
 
 var c11Sources = []string{
@@ -379,19 +384,25 @@ func VerifC11_ENew() {
 	}
 	ci := vConcInt(vndChoice("ctor", len(c11Ctors)))
 	si := vConcInt(vndChoice("src", len(c11Sources)))
-	r := c11Load(env, "(set 'S "+c11Sources[si]+") (set 'R "+c11Ctors[ci]+")")
+	show := func(name string) string {
+		return c11Show(env, "(list (length "+name+") (if (> (length "+name+") 0) (nth "+name+" 0) 'none) (if (> (length "+name+") 1) (nth "+name+" 1) 'none) (if (> (length "+name+") 2) (nth "+name+" 2) 'none))")
+	}
+	c11Load(env, "(set 'S "+c11Sources[si]+")")
+	sBefore := show("S")
+	r := c11Load(env, "(set 'R "+c11Ctors[ci]+")")
 	vObserve("ctor", c11Ctors[ci]+" on "+c11Sources[si])
+	vAssert(show("S") == sBefore, "a non-mutating constructor (and whatever its callee does to its own parameters) leaves the source as it was")
 	if r.Type == lisp.LError {
 		vCover("refused") // e.g. insert-sorted with a key order the elements do not have: no value, nothing to alias
 		return
 	}
-	show := func(name string) string {
-		return c11Show(env, "(list (length "+name+") (if (> (length "+name+") 0) (nth "+name+" 0) 'none) (if (> (length "+name+") 1) (nth "+name+" 1) 'none) (if (> (length "+name+") 2) (nth "+name+" 2) 'none))")
-	}
 	s0 := show("S")
-	mut := vConcInt(vndChoice("mutation", 3))
+	mut := vConcInt(vndChoice("mutation", 4))
 	switch mut {
 	case 0:
+		// the sources are in ascending order: a descending sort moves something whenever there are two elements
+		c11Load(env, "(stable-sort (lambda (a b) (if (and (int? a) (int? b)) (> a b) false)) R)")
+	case 3:
 		c11Load(env, "(stable-sort (lambda (a b) (if (and (int? a) (int? b)) (> a b) false)) R)")
 		c11Load(env, "(stable-sort (lambda (a b) (if (and (int? a) (int? b)) (< a b) false)) R)")
 	case 1:
